@@ -2,10 +2,12 @@
 (* Every sequence of <= DEPTH catalogue operations applicable (by enabling flags) to each object kind under each preparation.
    Sequences are emitted when complete; the driver creates the object, applies them through the public API and logs the
    monitor's verdict for every touched part after every step.                                                          *)
-EXTENDS SlideOps, Json, IOUtils
+EXTENDS SlideOps, Json, SlideOpsData
 CONSTANTS KINDS, PREPS, DEPTH
 VARIABLES st, hist
-OpsFromFile == JsonDeserialize(IOEnv.OPS_FILE)
+\* the catalogue is a literal constant (module SlideOpsData, regenerated from mbt/catalog/slideops.py by the check at every run;
+\* reading it with JsonDeserialize on every reference exhausted file handles in the triples configuration)
+OpsFromFile == OpsData
 Init == \E k \in KINDS, p \in PREPS : st = [kind |-> k, prep |-> p, flags |-> {}] /\ hist = <<>>
 Do(i) == Len(hist) < DEPTH /\ Enabled(Ops[i], st) /\ st' = Apply(Ops[i], st) /\ hist' = Append(hist, Ops[i].name)
 Next == \E i \in DOMAIN Ops : Do(i)
